@@ -204,3 +204,14 @@ Fixpoint no_unknown_variant (v : gval) : bool :=
   | GUnionUnknown _ => false
   | _ => true
   end.
+
+(* every uuid payload has 16 bytes (the Rust type is [u8; 16]) *)
+Fixpoint uuids_ok (v : gval) : bool :=
+  match v with
+  | GUuid l => Nat.eqb (length l) 16
+  | GList l | GSet l => forallb uuids_ok l
+  | GMap l => forallb (fun q => uuids_ok (fst q) && uuids_ok (snd q)) l
+  | GStruct fs _ => forallb (fun q => uuids_ok (snd q)) fs
+  | GUnion _ x => uuids_ok x
+  | _ => true
+  end.
